@@ -288,6 +288,17 @@ def run_case(case):
             # since nor been told False by a later answer; isAcquired() adds what its replica knows about expiry
             holders = [n for n in clients() if (n, lock) in owns and (n, lock) not in gave_up and sim.nodes[n].mgr.isAcquired(lock)]
             if len(holders) > 1:
+                # known finding: the release() that the library sends for an attempt answered too late is not tied to
+                # that attempt - it also undoes a later acquisition of the same client that was answered True
+                undone = [h for h in holders
+                          if any(r['client'] == h and r['lock'] == lock and any((not x[0]) and x[2] - r['t'] > aut / 2.0 for x in r['cbs']) and
+                                 any(r2['client'] == h and r2['lock'] == lock and r2.get('seq', 0) > r.get('seq', 0) and any(x[0] for x in r2['cbs']) for r2 in attempts)
+                                 for r in attempts)]
+                if undone:
+                    V('two-clients-hold-lock:release-of-late-attempt-undid-later-acquisition', 'lock %s is considered held by %r at wall time %.2f; %r was told False for a late attempt and True for a later one, '
+                      'the release sent for the late attempt was committed after the later acquisition; tables %r' % (
+                          lock, holders, Wall.t, undone, dict((n, sim.nodes[n].table().get(lock)) for n in holders)))
+                    continue
                 V('two-clients-hold-lock', 'lock %s is considered held by %r at wall time %.2f; tables %r' % (
                     lock, holders, Wall.t, dict((n, sim.nodes[n].table().get(lock)) for n in holders)))
         for rec in attempts:
